@@ -31,6 +31,12 @@ def main(tier, seed):
                          "deadline_s": 70 if q else 900},
                         mode="jit" if k % 2 == 0 else "interp", timeout=300 if q else 1800, tag="real:%d" % k,
                         stall_s=150))
+    for k in range(2 if q else 4):
+        jobs.append(Job("framework.props.mpfamily", "run_mp_real",
+                        {"props": ["C11"], "seed": seed * 59 + k, "count": 3 if q else 8, "slow_worker": 3.5,
+                         "slow_cases": 3 if q else 8, "gen": {"max_doms": 3}, "deadline_s": 120 if q else 600},
+                        mode="interp" if k % 2 else "jit", timeout=400 if q else 1800, tag="real-slow:%d" % k,
+                        stall_s=200))
     common.run_jobs(jobs)
     mpfamily.aggregate(rep, jobs)
     rep.exhaustive = False
@@ -42,6 +48,7 @@ def main(tier, seed):
     rep.need("mp.exhaustive_cases", 30, "exhaustively enumerated cases")
     rep.need("mp.cases_with_a_worker_without_solution", 5, "workers without solution")
     rep.need("mp.runs_jit", 100, "compiled runs")
+    rep.need("mp.cases_with_a_silent_worker", 4, "a worker silent for several polling periods")
     rep.assumptions = ["per-producer FIFO is the only ordering multiprocessing.Queue guarantees",
                        "sequential solver as reference (tied to brute force by C01-C03)"]
     return rep.finish()
